@@ -803,11 +803,15 @@ class MetadataProviderServer(Server):
             return
 
         # Builds the name of the method_name do be invoked, starting from the
-        # protocol method_name name, and retrieves such method_name.
-        on_method_name = "_on_" + method_name.lower()
-        try:
-            on_method = getattr(self, on_method_name)
-        except AttributeError:
+        # protocol method_name name, and retrieves such method_name. Only the
+        # methods of the protocol are dispatched: any other name (included
+        # those matching unrelated "_on_*" attributes) is an unknown request.
+        on_method = None
+        for method in meta_protocol.Method:
+            if method is not meta_protocol.Method.MPI and \
+                    method.name.lower() == method_name.lower():
+                on_method = getattr(self, "_on_" + method.name.lower())
+        if on_method is None:
             METADATA_LOGGER.warning("Discarding unknown request: %s",
                                     method_name)
             return
